@@ -99,6 +99,19 @@ def _describe(case, ev):
                     ", panic" if ev["panic"] else (", read error" if ev["readfail"] else "")))
         return what, {"part": "tags", "kind": "scriptlist-roundtrip", "script": case["script"],
                       "script_has_space": " " in case["script"], "panic": ev["panic"]}
+    if k == "taglist":
+        ins = {(_s(x["script"]), _s(x["lang"]), x["req"], tuple(sorted(x["feat"]))) for x in ev["in"]}
+        outs = {(_s(x["script"]), _s(x["lang"]), x["req"], tuple(sorted(x["feat"]))) for x in ev["out"]}
+        what = ("script list does not survive gtab.Read -> Encode -> gtab.Read (layout %s): %d language systems written by the "
+                "harness %s; Read gave %d tag(s); Encode wrote %d language systems (missing %s, unexpected %s); second Read "
+                "gave %d tag(s)%s" % (
+                    ev["layout"], len(ins), sorted(ins)[:4], len(ev["map1"]), len(ev["out"]), sorted(ins - outs)[:3],
+                    sorted(outs - ins)[:3], len(ev["map2"]),
+                    ", panic" if ev["panic"] else (", read error" if ev["readfail"] or ev["read2fail"] else "")))
+        lost_read = len(ev["map1"]) != len(ins)
+        empty_def = any(x[1] == "" and x[2] == 0xFFFF and not x[3] for x in (ins - outs))
+        return what, {"part": "tags", "kind": "scriptlist-structure", "layout": ev["layout"],
+                      "lost": "read" if lost_read else "encode", "empty_default": empty_def, "panic": ev["panic"]}
     if k == "tagback":
         rs = sorted({(_s(r["script"]), _s(r["lang"]), r["st"]) for r in ev["runs"]})
         what = ("mapping the BCP 47 tag %r (no private-use part) back to OpenType tags is not a function: %d runs in "
@@ -355,6 +368,10 @@ def run(ctx):
                              "with argument lengths 0, 1, 63, 64, 65, 200",
         "codec": "10 boundary UTF-16 units, sequences <= 3; 15 boundary code points, sequences <= 2; all 256 bytes",
         "tags": "6 pairs with sibling scripts",
+        "scriptlists": "1..2 scripts x (default absent/empty/with features) x 0..2 named language systems (empty or not) x "
+                       "4 layouts (plain, shared Script table, shared LangSys tables, tables in reverse order): 1280 shapes",
+        "equal_strings": "39 sets of name ids among 1,2,4,6,16,17,21,22 carrying one string x (Macintosh, Windows, both + a "
+                         "second Windows language)",
         "generated": "name.Info shapes <= 6 entries over 8 language x 10 id x 12 string classes; glyph lists <= 3 (4 "
                      "thorough) classes x 4 modes",
     }
@@ -362,11 +379,10 @@ def run(ctx):
     # 2. R: abstract inputs from TLC
     d = ctx.subdir("c14")
     gens = list(hist.cases) + list(chist.cases)
-    for cfg, kw in (("NameCodecGenNames1.cfg", {}), ("NameCodecGenUnits.cfg", {}),
-                    ("NameCodecGenPost.cfg", {}),
+    for cfg, kw in (("NameCodecGenAll.cfg", {}),
                     ("NameCodecGenNames.cfg", {"workers": 1, "simulate": ctx.pick(1000, 12000), "depth": 20})):
         files = None
-        if cfg == "NameCodecGenPost.cfg" and not ctx.quick():
+        if cfg == "NameCodecGenAll.cfg" and not ctx.quick():
             files = {"NCg.cfg": open(os.path.join(vlib.SPEC_DIR, cfg)).read().replace("MaxGlyphs = 3", "MaxGlyphs = 4")}
             cfg = "NCg.cfg"
         sim = "simulate" in kw
@@ -390,7 +406,7 @@ def run(ctx):
     # 3. drive the real code, validate every event
     total_cases = 0
     distinct = set()
-    for part, args in (("names", [tlc_cases]), ("codec", [tlc_cases]), ("post", [tlc_cases]), ("tags", [ctx.repo])):
+    for part, args in (("names", [tlc_cases]), ("codec", [tlc_cases]), ("post", [tlc_cases]), ("tags", [ctx.repo, tlc_cases])):
         tp = os.path.join(d, part + ".ndjson")
         ctx.run([binp, part] + args + [tp], timeout=900)
         with open(tp + ".cases") as f:
